@@ -46,5 +46,17 @@ CLAIMED["C06"] = dict(
     note="Trusted: Lean kernel, harness/door, UTF-8 validity as transcribed (Model/Utf8.lean). IPv6 addresses whose first 96 bits are "
          "zero are indistinguishable from IPv4 on the 6.3 wire and excluded from the round-trip theorem by an explicit predicate.",
 )
+CLAIMED["C12"] = dict(
+    text="Unbounded Lean theorems: for every well-formed single-record ClientHello (any session id, suites, compression list and "
+         "extensions that fit a record) and any trailing bytes the extractor returns exactly the 32-byte random (extract_exact); every "
+         "strict prefix asks for more (prefix_needs_more); whatever the input, a reported value is bytes 11..43 of a ClientHello "
+         "record starting the stream (found_is_the_field); for every arrival schedule the read loop reports the random "
+         "(loop_segmentation_invariant), never another value (loop_absent_never_wrong), and prebuffer ++ unread = stream "
+         "(loop_conserves); the replay returns prebuffer then socket bytes for all read sizes (replay_transparent/complete). Tied to "
+         "tls_listener.rs + tls-parser by ~10k extraction cases per run (the tie already corrected the model's record-length limit) and "
+         "the real loop over loopback TCP.",
+    note="Trusted: Lean kernel, harness/door, tls-parser internals beyond the modelled walk, rustls on the replayed bytes, BoringSSL's "
+         "client random on QUIC. Records whose first handshake message is not a ClientHello are outside the model.",
+)
 NOT_CLAIMED = {p: "not yet built in this framework (planned, see DESIGN.md section 5)" for p in
-               ["C01", "C02", "C05", "C07", "C08", "C09", "C10", "C12", "C13", "C14", "C15", "C16", "C17", "C18", "C19", "C20"]}
+               ["C01", "C02", "C05", "C07", "C08", "C09", "C10", "C13", "C14", "C15", "C16", "C17", "C18", "C19", "C20"]}
